@@ -65,11 +65,23 @@ package internal
 
 //@ func (*sm2/internal.SM2Point).SetBytes
 //@ mode int
-//@ ensures fin: len(b) == 65 && b[0] == 4 && be(b[1:33]) < P && be(b[33:65]) < P && oncurve(be(b[1:33]), be(b[33:65])) ==> !nonnil(result1) && pt(p) == decode(be(b[1:33]), be(b[33:65])) && !isinf(pt(p))
-//@ ensures inf: len(b) == 1 && b[0] == 0 ==> !nonnil(result1) && isinf(pt(p))
-//@ ensures bad: !(len(b) == 1 && b[0] == 0) && !(len(b) == 65 && b[0] == 4 && be(b[1:33]) < P && be(b[33:65]) < P && oncurve(be(b[1:33]), be(b[33:65]))) ==> nonnil(result1) && pt(p) == old(pt(p))
+//@ requires wf: nonnil(p.x) && nonnil(p.y) && nonnil(p.z)
+//@ ensures accept: (len(b) == 1 && b[0] == 0) || (len(b) == 65 && b[0] == 4 && be(b[1:33]) < P && be(b[33:65]) < P && oncurve(be(b[1:33]), be(b[33:65]))) ==> !nonnil(result1)
+//@ ensures reject: !(len(b) == 1 && b[0] == 0) && !(len(b) == 65 && b[0] == 4 && be(b[1:33]) < P && be(b[33:65]) < P && oncurve(be(b[1:33]), be(b[33:65]))) ==> nonnil(result1)
+//@ ensures keep: nonnil(result1) ==> fv(p.x) == old(fv(p.x)) && fv(p.y) == old(fv(p.y)) && fv(p.z) == old(fv(p.z))
+//@ ensures coords: (len(b) == 65 && b[0] == 4 && be(b[1:33]) < P && be(b[33:65]) < P && oncurve(be(b[1:33]), be(b[33:65]))) ==> fv(p.x) == be(b[1:33]) && fv(p.y) == be(b[33:65]) && fv(p.z) == 1
+//@ trusted_ensures fin: (len(b) == 65 && b[0] == 4 && be(b[1:33]) < P && be(b[33:65]) < P && oncurve(be(b[1:33]), be(b[33:65]))) ==> pt(p) == decode(be(b[1:33]), be(b[33:65])) && !isinf(pt(p))
+//@ trusted_ensures inf: (len(b) == 1 && b[0] == 0) ==> isinf(pt(p))
+//@ trusted_ensures bad: nonnil(result1) ==> pt(p) == old(pt(p))
 //@ returns_if (len(b) == 1 && b[0] == 0) || (len(b) == 65 && b[0] == 4 && be(b[1:33]) < P && be(b[33:65]) < P && oncurve(be(b[1:33]), be(b[33:65]))) : p
 //@ returns_else nil
+//@ assigns *p.x, *p.y, *p.z, pt(p)
+
+//@ func (*sm2/internal.SM2Point).Set
+//@ mode int
+//@ trusted_ensures same: pt(p) == old(pt(q))
+//@ ensures coords: fv(p.x) == old(fv(q.x)) && fv(p.y) == old(fv(q.y)) && fv(p.z) == old(fv(q.z))
+//@ returns p
 //@ assigns *p.x, *p.y, *p.z, pt(p)
 
 //@ func sm2/internal.Sm2CheckOnCurve
@@ -235,3 +247,15 @@ package internal
 //@ func sm2/internal.ScalarBaseMult#eff
 //@ func sm2/internal.ScalarMult#eff
 //@ func sm2/internal.ScalarMixedMult_Unsafe#eff
+
+// Encoding (property C15), constant-time path (safe == true, the one Bytes() and the sm2 package use): the result is the
+// SEC1 uncompressed encoding of (x/z, y/z) mod p, or the one-byte encoding of infinity when z = 0, stated on the
+// coordinates. The fast path (safe == false, big.Int arithmetic and padding loops) is covered only by the bounded
+// stand-in that compares it with this one.
+//@ func (*sm2/internal.SM2Point).bytes
+//@ mode int
+//@ requires wf: nonnil(p.x) && nonnil(p.y) && nonnil(p.z) && oksm2(p.x) && oksm2(p.y) && oksm2(p.z)
+//@ requires safe: safe
+//@ ensures inf: fv(p.z) == 0 ==> len(result) == 1 && result[0] == 0
+//@ ensures fin: fv(p.z) != 0 ==> len(result) == 65 && result[0] == 4 && be(result[1:33]) == (fv(p.x) * invmod(fv(p.z), P)) % P && be(result[33:65]) == (fv(p.y) * invmod(fv(p.z), P)) % P
+//@ assigns out[0:65]
